@@ -233,10 +233,15 @@ def poll_listens_on_kill_pipe(ctx, RK, P) -> None:
     if ini is None:
         raise AnalysisError("anchor vanished: Inotify.__init__")
     assigned = [ast.unparse(n.value) for n in ast.walk(ini.node) if isinstance(n, ast.Assign) and any(ast.unparse(t) == "self._check_inotify_fd" for t in n.targets)]
+    # closures of __init__, or bound methods of the class (`self._check_inotify_fd = self._poll_inotify_fd`)
     fns = {f.name: f for f in ast.walk(ini.node) if isinstance(f, ast.FunctionDef) and f is not ini.node}
+    for a in assigned:
+        if a.startswith("self.") and P.find_method("Inotify", a[5:]) is not None:
+            fns[a] = P.find_method("Inotify", a[5:]).node
+    cls_node = P.cls("Inotify").node
     if not assigned or not all(a in fns for a in assigned):
         raise AnalysisError("anchor vanished: the functions bound to Inotify._check_inotify_fd")
-    registered = {ast.unparse(n.args[0]) for n in ast.walk(ini.node) if isinstance(n, ast.Call) and ast.unparse(n.func) == "self._poller.register" and n.args}
+    registered = {ast.unparse(n.args[0]) for n in ast.walk(cls_node) if isinstance(n, ast.Call) and ast.unparse(n.func) == "self._poller.register" and n.args}
     want = {"self._inotify_fd", "self._kill_r"}
     for name in assigned:
         f = fns[name]
